@@ -1,6 +1,6 @@
 """Parameters of the UDP relay model (C11), read from the working tree with `ast`."""
 import ast
-from params.c10 import guards_no_id, call_order
+from params.c10 import guards_no_id, call_order, clock_reads
 
 
 def recv_err_safe(h):
@@ -34,6 +34,7 @@ def split_args(h, rel, qual):
 
 
 def generate(g, h):
+    g.strlist('CLOCK_READS', lambda: clock_reads(h))
     g.boolean('ONUDP_GUARDS_NO_ID', lambda: guards_no_id(h, 'onaccept_udp'))
     g.boolean('UDP_RECV_ERR_SAFE', lambda: recv_err_safe(h))
     g.strlist('CLIENT_HDR_FMT', lambda: hdr_formats(h, 'sshuttle/client.py', 'onaccept_udp'))
